@@ -1,86 +1,203 @@
-(* C14: the MERCURIUS bookkeeping of reb_simulation_remove_particle (src/particle.c), dcrit part.
-   After the validation-first fix the order is: index range, N_var, then (integrator == MERCURIUS)
-   keep_sorted = 1 and the dcrit shift
-       if (N_allocated_dcrit>0 && index<N_allocated_dcrit) for (i=0;i<N-1;i++) if (i>=index) dcrit[i]=dcrit[i+1];
-   then the common removal paths (N==1, keep_sorted with its tree refusal, ...).
-   dcrit values are abstract ids; every dcrit access is checked against N_allocated_dcrit = length dcrit.
-   NOT modelled here: encounter_map / encounter_N / encounter_N_active (mode 1), TRACE's current_Ks. *)
+(* C14: the MERCURIUS / TRACE bookkeeping of reb_simulation_remove_particle and reb_simulation_add
+   (src/particle.c), on top of the particle model of Model.v.
+   Hybrid state: integrator kind, ri_*.mode, dcrit (length = N_allocated_dcrit), encounter_map (length =
+   ri_*.N_allocated), encounter_N, encounter_N_active, TRACE's current_Ks (flat int matrix), the two
+   recalculate_* flags of MERCURIUS, and a counter of out-of-bounds accesses to these arrays.
+   Values of dcrit are abstract numbers (the value computed by
+   reb_integrator_mercurius_calculate_dcrit_for_particle is an input of the model).  Not modelled:
+   reb_integrator_ias15_reset / reb_integrator_bs_reset (integrator scratch memory), particles_backup*. *)
 From Coq Require Import List ZArith NArith Bool Arith Lia ZifyBool.
 From RV Require Import C14.Model C14.Lists C14.ProofsA.
 Import ListNotations.
 
-Record hyb := mkH { dcrit : list N; hoob : nat }.
+Inductive integ := INone | IMerc | ITrace.
+Record hyb := mkH {
+  kind : integ;
+  hmode : nat;
+  dcrit : list Z;
+  emap : list Z;
+  eN : nat;
+  eNact : Z;
+  ks : list Z;
+  rc_rcrit : bool;
+  rc_coord : bool;
+  hoob : nat
+}.
+Definition garbage : Z := (-1)%Z.      (* content of freshly (re)allocated, not yet written memory *)
 
-Fixpoint dshift (cnt i index : nat) (d : list N) (ob : nat) : list N * nat :=
+(* for (i=0; i<N-1 && i+1<N_allocated_dcrit; i++) if (i>=index) dcrit[i] = dcrit[i+1]; *)
+Fixpoint dshift (cnt i index : nat) (d : list Z) (ob : nat) : list Z * nat :=
   match cnt with
   | O => (d, ob)
   | S c => if index <=? i
-           then dshift c (S i) index (upd d i (nth (S i) d 0%N)) (ob + chk (length d) (S i) + chk (length d) i)
+           then dshift c (S i) index (upd d i (nth (S i) d 0%Z)) (ob + chk (length d) (S i) + chk (length d) i)
            else dshift c (S i) index d ob
   end.
 
-Definition merc_remove (s : state) (h : hyb) (index : Z) : state * hyb * result :=
+(* for (i=0;i<encounter_N;i++){ if (after) map[i-1] = map[i]-1; if (map[i]==index){ encounter_index=i; after=1; } } *)
+Fixpoint emap_loop (cnt i : nat) (index : Z) (m : list Z) (after : bool) (eidx : Z) (ob : nat)
+  : list Z * Z * nat :=
+  match cnt with
+  | O => (m, eidx, ob)
+  | S c =>
+      let '(m1, ob1) := if after then (upd m (i - 1) (nth i m 0 - 1)%Z, ob + chk (length m) i + chk (length m) (i - 1))
+                        else (m, ob) in
+      let ob2 := ob1 + chk (length m1) i in
+      if (nth i m1 0 =? index)%Z then emap_loop c (S i) index m1 true (Z.of_nat i) ob2
+      else emap_loop c (S i) index m1 after eidx ob2
+  end.
+
+(* TRACE: for(i<new_N){ if(i==index) counter+=N; for(j<new_N){ if(j==index) counter++; Ks[i*new_N+j]=Ks[i*new_N+j+counter]; } } *)
+Fixpoint ks_row (cnt j i newN index : nat) (k : list Z) (counter ob : nat) : list Z * nat * nat :=
+  match cnt with
+  | O => (k, counter, ob)
+  | S c =>
+      let counter1 := if j =? index then S counter else counter in
+      let src := i * newN + j + counter1 in
+      let dst := i * newN + j in
+      ks_row c (S j) i newN index (upd k dst (nth src k 0%Z)) counter1
+             (ob + chk (length k) src + chk (length k) dst)
+  end.
+Fixpoint ks_rows (cnt i newN n index : nat) (k : list Z) (counter ob : nat) : list Z * nat :=
+  match cnt with
+  | O => (k, ob)
+  | S c =>
+      let counter1 := if i =? index then counter + n else counter in
+      let '(k1, c1, ob1) := ks_row newN 0 i newN index k counter1 ob in
+      ks_rows c (S i) newN n index k1 c1 ob1
+  end.
+
+Definition hybrid_kind (h : hyb) : bool := match kind h with INone => false | _ => true end.
+
+(* reb_simulation_remove_particle with the hybrid bookkeeping *)
+Definition hremove (s : state) (h : hyb) (index : Z) (keep : bool) : state * hyb * result :=
   if ((Z.of_nat (sN s) <=? index) || (index <? 0))%Z then (s, h, RFail)
   else if negb (sNvar s =? 0) then (s, h, RFail)
   else
-    let i := Z.to_nat index in
-    let h1 := if (0 <? length (dcrit h)) && (i <? length (dcrit h))
-              then let '(d, ob) := dshift (sN s - 1) 0 i (dcrit h) (hoob h) in mkH d ob else h in
-    let '(s', r) := remove_idx s index true in       (* keep_sorted forced to 1 *)
-    (s', h1, r).
+    let keep1 := keep || hybrid_kind h in                 (* keep_sorted forced for MERCURIUS / TRACE *)
+    if keep1 && tree s then (s, h, RFail)
+    else
+      let i := Z.to_nat index in
+      let h1 :=
+        match kind h with
+        | INone => h
+        | IMerc =>
+            let nd := length (dcrit h) in
+            let '(d, ob) := if (0 <? nd) && (i <? nd)
+                            then dshift (Nat.min (sN s - 1) (nd - 1)) 0 i (dcrit h) (hoob h) else (dcrit h, hoob h) in
+            if hmode h =? 1 then
+              let '(m, eidx, ob') := emap_loop (eN h) 0 index (emap h) false (-1)%Z ob in
+              mkH (kind h) (hmode h) d m (eN h - 1) (if (eidx <? eNact h)%Z then (eNact h - 1)%Z else eNact h)
+                  (ks h) (rc_rcrit h) (rc_coord h) ob'
+            else mkH (kind h) (hmode h) d (emap h) (eN h) (eNact h) (ks h) (rc_rcrit h) (rc_coord h) ob
+        | ITrace =>
+            if (hmode h =? 1) || (hmode h =? 3) then
+              let '(m, eidx, ob') := emap_loop (eN h) 0 index (emap h) false (-1)%Z (hoob h) in
+              let '(k, ob'') := ks_rows (sN s - 1) 0 (sN s - 1) (sN s) i (ks h) 0 ob' in
+              (* encounter_index is int, encounter_N_active unsigned: -1 compares as UINT_MAX *)
+              mkH (kind h) (hmode h) (dcrit h) m (eN h - 1)
+                  (if (0 <=? eidx)%Z && (eidx <? eNact h)%Z then (eNact h - 1)%Z else eNact h)
+                  k (rc_rcrit h) (rc_coord h) ob''
+            else h
+        end in
+      let '(s', r) := remove_idx s index keep1 in
+      (s', h1, r).
 
-(* out-of-range index / variational particles: nothing is touched, the hybrid arrays included *)
-Theorem merc_invalid_untouched : forall s h z, ((z < 0 \/ Z.of_nat (sN s) <= z)%Z \/ sNvar s <> 0) ->
-  merc_remove s h z = (s, h, RFail).
-Proof.
-  intros s h z H. unfold merc_remove.
-  destruct ((Z.of_nat (sN s) <=? z) || (z <? 0))%Z eqn:E; auto.
-  destruct (sNvar s =? 0) eqn:E2; auto. lia.
-Qed.
+(* ---- reb_simulation_add_local, hybrid part (after the particle is stored and N incremented) *)
+Definition extend (l : list Z) (n : nat) : list Z := l ++ repeat garbage (n - length l).
 
-Lemma dshift_safe : forall cnt i index d ob d' ob', i + cnt < length d ->
-  dshift cnt i index d ob = (d', ob') -> ob' = ob /\ length d' = length d.
-Proof.
-  induction cnt; intros i index d ob d' ob' Hb H; cbn [dshift] in H.
-  - inversion H; auto.
-  - destruct (index <=? i).
-    + apply IHcnt in H; [|rewrite upd_length; lia]. rewrite upd_length in H.
-      rewrite !chk_in in H by lia. destruct H. split; lia.
-    + apply IHcnt in H; auto. lia.
-Qed.
+(* for (i=old_N-1;i>=0;i--) for (j=old_N-1;j>=0;j--) Ks[i*old_N+j+i] = Ks[i*old_N+j]; *)
+Fixpoint ks_grow_row (cnt i oldN : nat) (k : list Z) (ob : nat) : list Z * nat :=
+  match cnt with
+  | O => (k, ob)
+  | S j => let src := i * oldN + j in let dst := i * oldN + j + i in
+           ks_grow_row j i oldN (upd k dst (nth src k 0%Z)) (ob + chk (length k) src + chk (length k) dst)
+  end.
+Fixpoint ks_grow (cnt oldN : nat) (k : list Z) (ob : nat) : list Z * nat :=
+  match cnt with
+  | O => (k, ob)
+  | S i => let '(k1, ob1) := ks_grow_row oldN i oldN k ob in ks_grow i oldN k1 ob1
+  end.
+(* for (i=1;i<encounter_N;i++) Ks[encounter_map[i]*N+old_N] = 1; *)
+Fixpoint ks_mark (cnt i n oldN : nat) (m k : list Z) (ob : nat) : list Z * nat :=
+  match cnt with
+  | O => (k, ob)
+  | S c => let dst := Z.to_nat (nth i m 0%Z) * n + oldN in
+           ks_mark c (S i) n oldN m (upd k dst 1%Z) (ob + chk (length m) i + chk (length k) dst)
+  end.
 
-(* the dcrit shift stays inside the dcrit allocation when dcrit covers all particles *)
-Theorem merc_dcrit_safe_partial : forall s h z s' h' r, sN s <= length (dcrit h) ->
-  merc_remove s h z = (s', h', r) -> hoob h' = hoob h.
-Proof.
-  intros s h z s' h' r Hl H. unfold merc_remove in H.
-  destruct ((Z.of_nat (sN s) <=? z) || (z <? 0))%Z; [inversion H; auto|].
-  destruct (negb (sNvar s =? 0)); [inversion H; auto|].
-  destruct (remove_idx s z true) as [s1 r1].
-  destruct ((0 <? length (dcrit h)) && (Z.to_nat z <? length (dcrit h))) eqn:E; [|inversion H; auto].
-  destruct (dshift (sN s - 1) 0 (Z.to_nat z) (dcrit h) (hoob h)) as [d ob] eqn:ED.
-  inversion H; subst; clear H. cbn [hoob]. pose proof (dshift_safe (sN s - 1) 0 (Z.to_nat z) (dcrit h) (hoob h) d ob) as L. destruct L as [L _]; auto; lia.
-Qed.
+Definition hadd (s : state) (h : hyb) (p : particle) (newd : Z) : state * hyb :=
+  let s1 := add s p in
+  let n := sN s1 in
+  let h1 :=
+    match kind h with
+    | INone => h
+    | IMerc =>
+        if hmode h =? 0 then mkH (kind h) (hmode h) (dcrit h) (emap h) (eN h) (eNact h) (ks h) true true (hoob h)
+        else
+          let d := if length (dcrit h) <? n then extend (dcrit h) n else dcrit h in
+          let d1 := upd d (n - 1) newd in
+          let m := if length (emap h) <? n then extend (emap h) n else emap h in
+          mkH (kind h) (hmode h) d1 (upd m (eN h) (Z.of_nat (n - 1))) (S (eN h))
+              (if (sNact s =? -1)%Z then (eNact h + 1)%Z else eNact h) (ks h) (rc_rcrit h) (rc_coord h)
+              (hoob h + chk (length d) (n - 1) + chk (length m) (eN h))
+    | ITrace =>
+        if (hmode h =? 1) || (hmode h =? 3) then
+          let oldN := n - 1 in
+          let grow := length (emap h) <? n in
+          let k0 := if grow then extend (ks h) (n * n) else ks h in
+          let m := if grow then extend (emap h) n else emap h in
+          let '(k1, ob1) := ks_grow oldN oldN k0 (hoob h) in
+          let '(k2, ob2) := ks_mark (eN h - 1) 1 n oldN m k1 ob1 in
+          mkH (kind h) (hmode h) (dcrit h) (upd m (eN h) (Z.of_nat oldN)) (S (eN h))
+              (if (sNact s =? -1)%Z then (eNact h + 1)%Z else eNact h) k2 (rc_rcrit h) (rc_coord h)
+              (ob2 + chk (length m) (eN h))
+        else h
+    end in
+  (s1, h1).
 
-(* ... and leaves it otherwise: particles added after the last MERCURIUS step (N_allocated_dcrit < N).
-   Witness: N_allocated_dcrit = 3, N = 5, remove index 0 -> dcrit[3], dcrit[4] are read. *)
-Definition five : state :=
-  fst (run (init false) [Add (mkP 0 1 false); Add (mkP 0 2 false); Add (mkP 0 3 false); Add (mkP 0 4 false); Add (mkP 0 5 false)]).
-Theorem merc_dcrit_safe_refuted : exists s h z s' h' r,
-  wf s /\ (0 <= z < Z.of_nat (sN s))%Z /\ hoob h = 0 /\ merc_remove s h z = (s', h', r) /\ r = RRemoved 0 /\ 0 < hoob h'.
-Proof.
-  exists five, (mkH [10; 11; 12]%N 0), 0%Z. eexists. eexists. eexists.
-  split; [split; vm_compute; lia|]. split; [vm_compute; split; [discriminate|reflexivity]|]. split; [reflexivity|].
-  split; [vm_compute; reflexivity|]. split; [reflexivity|]. vm_compute. lia.
-Qed.
+(* ---- operations and runs, for the correspondence *)
+Inductive hop := HRemove (index : Z) (keep : bool) | HAdd (p : particle) (newd : Z).
+Definition hstep (s : state) (h : hyb) (o : hop) : state * hyb * result :=
+  match o with
+  | HRemove z k => hremove s h z k
+  | HAdd p d => let '(s1, h1) := hadd s h p d in (s1, h1, RVoid)
+  end.
 
-(* a refused request (a tree exists, keep_sorted forced) returns failure and leaves the particles alone,
-   but dcrit has already been shifted *)
-Definition three_tree : state :=
-  fst (run (init true) [Add (mkP 0 1 false); Add (mkP 0 2 false); Add (mkP 0 3 false)]).
-Theorem merc_refused_untouched_refuted : exists s h z s' h' r,
-  merc_remove s h z = (s', h', r) /\ r = RFail /\ s' = s /\ dcrit h' <> dcrit h.
-Proof.
-  exists three_tree, (mkH [10; 11; 12]%N 0), 1%Z. eexists. eexists. eexists.
-  split; [vm_compute; reflexivity|]. split; [reflexivity|]. split; [reflexivity|]. cbn. discriminate.
-Qed.
+(* ---------------------------------------------------------------- glue for the correspondence check *)
+Definition hrow := (Z * Z * Z * list Z * list Z * Z * Z * list Z * bool * bool)%type.
+(* ret, N, N_active, dcrit (whole allocation), encounter_map (live part), encounter_N, encounter_N_active,
+   current_Ks (first N*N), recalculate_r_crit, recalculate_coordinates *)
+Definition hobs (s : state) (h : hyb) (r : result) : hrow :=
+  (match r with RFail => 0 | RVoid => 9 | _ => 1 end, Z.of_nat (sN s), sNact s, dcrit h, firstn (eN h) (emap h),
+   Z.of_nat (eN h), eNact h, match kind h with ITrace => firstn (sN s * sN s) (ks h) | _ => [] end,
+   rc_rcrit h, rc_coord h)%Z.
+Fixpoint htrace (s : state) (h : hyb) (ops : list hop) : state * hyb * list hrow :=
+  match ops with
+  | [] => (s, h, [])
+  | o :: r => let '(s1, h1, x) := hstep s h o in let '(s2, h2, xs) := htrace s1 h1 r in (s2, h2, hobs s1 h1 x :: xs)
+  end.
+Fixpoint zl_eqb (a b : list Z) : bool :=
+  match a, b with [], [] => true | x :: a', y :: b' => (x =? y)%Z && zl_eqb a' b' | _, _ => false end.
+Definition hrow_eqb (a b : hrow) : bool :=
+  let '(a1, a2, a3, a4, a5, a6, a7, a8, a9, a10) := a in let '(b1, b2, b3, b4, b5, b6, b7, b8, b9, b10) := b in
+  ((a1 =? b1) && (a2 =? b2) && (a3 =? b3) && (a6 =? b6) && (a7 =? b7))%Z && zl_eqb a4 b4 && zl_eqb a5 b5 && zl_eqb a8 b8
+  && Bool.eqb a9 b9 && Bool.eqb a10 b10.
+Fixpoint hrows_eqb (x y : list hrow) : bool :=
+  match x, y with [], [] => true | a :: x', b :: y' => hrow_eqb a b && hrows_eqb x' y' | _, _ => false end.
+(* a case: tree, set-up operations of the particle model (adds, N_active, N_var), hybrid state, operations,
+   rows observed on the library, final particle ids; hoob must stay 0 unless the case says otherwise *)
+Definition hcase := (bool * list op * hyb * list hop * list hrow * list N)%type.
+Definition hcase_ok (c : hcase) : bool :=
+  let '(tr, setup, h, ops, rows, fin) := c in
+  let s0 := fst (run (init tr) setup) in
+  let '(s, h', rs) := htrace s0 h ops in
+  hrows_eqb rs rows && (oob s =? 0)%nat && (hoob h' =? 0)%nat &&
+  (fix eq (a b : list N) := match a, b with [], [] => true | x :: a', y :: b' => (x =? y)%N && eq a' b' | _, _ => false end)
+    (map pid (firstn (sN s) (mem s))) fin.
+Fixpoint bad_h (i : nat) (cs : list hcase) : list nat :=
+  match cs with [] => [] | c :: r => if hcase_ok c then bad_h (S i) r else i :: bad_h (S i) r end.
+Definition hdiag (c : hcase) :=
+  let '(tr, setup, h, ops, rows, fin) := c in
+  let s0 := fst (run (init tr) setup) in
+  let '(s, h', rs) := htrace s0 h ops in (rs, oob s, hoob h', map pid (firstn (sN s) (mem s))).
